@@ -31,6 +31,8 @@ func newEncoder(format string, w io.Writer, jopts json.EncodeOptions) stepper {
 		return cbor.NewEncoder(w)
 	case "json":
 		return json.NewEncoder(w, jopts)
+	case "jsoni":
+		return json.NewEncoder(w, json.EncodeOptions{Line: []byte{'\n'}, Indent: []byte{'\t'}})
 	case "pretty":
 		return pretty.NewEncoder(w)
 	}
